@@ -79,11 +79,11 @@ where
         }
         {
             // keep the waker of the latest readiness checks: op D wakes them to make the worker ask again
+            // (one entry per task: a waker that is dropped from this list is a worker that sleeps through `b`)
             let mut ws = self.1.ready_wakers.lock().unwrap();
-            if ws.len() > 64 {
-                ws.drain(..32);
+            if !ws.iter().any(|w| w.will_wake(cx.waker())) {
+                ws.push(cx.waker().clone());
             }
-            ws.push(cx.waker().clone());
         }
         // the first readiness check of an instance, and the first one after each call, answers Pending and wakes the waker it was
         // given from inside the check (the usual way of yielding): the service is ready at the next check
@@ -92,7 +92,6 @@ where
             return std::task::Poll::Pending;
         }
         if self.1.blocked.load(Ordering::SeqCst) {
-            self.1.ready_wakers.lock().unwrap().push(cx.waker().clone());
             return std::task::Poll::Pending;
         }
         // a readiness failure armed for this builder call: the first instance of it that is asked fails, once
